@@ -20,8 +20,8 @@ def trim_cache():
     """every changed tree compiles into the Go build cache (~1 GB each); keep it below ~25 GB"""
     try:
         out = subprocess.run("du -sm /root/.cache/go-build 2>/dev/null | cut -f1", shell=True, stdout=subprocess.PIPE, text=True).stdout.strip()
-        if out and int(out) > 25000:
-            subprocess.run("find /root/.cache/go-build -type f -mmin +40 -delete 2>/dev/null", shell=True)
+        if out and int(out) > 60000:
+            subprocess.run("find /root/.cache/go-build -type f -mmin +75 -delete 2>/dev/null", shell=True)
     except Exception:
         pass
 
